@@ -154,6 +154,51 @@ class Table:
         return (Table, (), None, None, iter(list(self.rows.items())))
 
 
+import dataclasses
+
+
+@dataclasses.dataclass(frozen=True)
+class Frozen:
+    """frozen dataclass: attribute assignment raises; pickle restores it through __dict__"""
+    a: object = None
+    b: object = None
+
+
+class Tracking:
+    """records every attribute assignment: state restored through setattr() would leave other traces than pickle's __dict__ update"""
+
+    def __init__(self, a=None, b=None):
+        object.__setattr__(self, 'changes', 0)
+        self.a, self.b = a, b
+
+    def __setattr__(self, k, v):
+        self.__dict__['changes'] = self.__dict__.get('changes', 0) + 1
+        self.__dict__[k] = v
+
+
+class PropShadow:
+    """an instance-dict key with the name of a read-only property of the class"""
+
+    def __init__(self, v=None):
+        self.__dict__['size'] = v
+
+    @property
+    def size(self):
+        return ('property', self.__dict__.get('size'))
+
+
+class KwNew(int):
+    """keyword-only __new__ arguments: __getnewargs_ex__"""
+
+    def __new__(cls, *, value=0, label=None):
+        self = int.__new__(cls, value)
+        self.label = label
+        return self
+
+    def __getnewargs_ex__(self):
+        return ((), {'value': int(self), 'label': self.label})
+
+
 class MyList(list):
     pass
 
@@ -218,15 +263,19 @@ def gen_spec(r, max_nodes=12, cycles=True, names=True):
         return len(nodes) - 1
     kinds = ['plain', 'plain', 'list', 'dict', 'tuple', 'slots', 'slotsdict', 'slotssetstate', 'statedict', 'statetuple', 'newargs', 'newargsint', 'reducestate',
              'reducelist', 'reducedict', 'indexeddict', 'table', 'mylist', 'mydict', 'mystr', 'myint', 'enum', 'intenum', 'namedtuple', 'complex', 'set', 'frozenset',
-             'odict', 'deque', 'defaultdict', 'bytearray', 'range', 'decimal', 'fraction', 'timedelta', 'date', 'withclassref']
+             'odict', 'deque', 'defaultdict', 'bytearray', 'range', 'decimal', 'fraction', 'timedelta', 'date', 'withclassref', 'frozen', 'tracking', 'propshadow', 'kwnew']
     if names:
         kinds += ['name', 'name']
     for _ in range(r.randint(1, max_nodes)):
         k = r.choice(kinds)
         classes.add('shape:' + k)
-        if k in ('plain', 'slotsdict', 'statedict', 'slots', 'slotssetstate', 'statetuple', 'newargs', 'withclassref'):
+        if k in ('plain', 'slotsdict', 'statedict', 'slots', 'slotssetstate', 'statetuple', 'newargs', 'withclassref', 'frozen', 'tracking'):
             a, b = ref(), ref()
             nodes.append([k, a, b])
+        elif k == 'propshadow':
+            nodes.append([k, ref(), ref()])
+        elif k == 'kwnew':
+            nodes.append([k, r.choice([0, 5, -2])])
         elif k in ('list', 'tuple', 'mylist', 'reducelist', 'deque'):
             nodes.append([k, [ref() for _ in range(r.randint(0, 3))]])
         elif k in ('dict', 'mydict', 'reducedict', 'odict', 'defaultdict', 'indexeddict', 'table'):
@@ -293,8 +342,10 @@ def gen_spec(r, max_nodes=12, cycles=True, names=True):
 
 def children(n):
     k = n[0]
-    if k in ('plain', 'slotsdict', 'statedict', 'slots', 'slotssetstate', 'statetuple', 'newargs', 'withclassref', 'namedtuple'):
+    if k in ('plain', 'slotsdict', 'statedict', 'slots', 'slotssetstate', 'statetuple', 'newargs', 'withclassref', 'namedtuple', 'frozen', 'tracking'):
         return [n[1], n[2]]
+    if k == 'propshadow':
+        return [n[1]]
     if k in ('list', 'tuple', 'mylist', 'reducelist', 'deque', 'set', 'frozenset'):
         return list(n[1])
     if k in ('dict', 'mydict', 'reducedict', 'odict', 'defaultdict', 'indexeddict', 'table'):
@@ -341,7 +392,7 @@ def cycle_kinds(spec):
     return out
 
 
-DEEP_KINDS = {'slots', 'slotsdict', 'slotssetstate', 'statedict', 'statetuple', 'newargs', 'newargsint', 'reducestate', 'reducelist', 'reducedict', 'indexeddict', 'table',
+DEEP_KINDS = {'kwnew', 'slots', 'slotsdict', 'slotssetstate', 'statedict', 'statetuple', 'newargs', 'newargsint', 'reducestate', 'reducelist', 'reducedict', 'indexeddict', 'table',
               'mylist', 'mydict', 'namedtuple', 'odict', 'deque', 'defaultdict', 'frozenset', 'withclassref'}
 
 
@@ -384,7 +435,7 @@ def reach_set(edges, a):
 def build(spec):
     nodes = spec['nodes']
     o = [None] * len(nodes)
-    leaf = {'atom', 'mystr', 'myint', 'newargsint', 'enum', 'intenum', 'complex', 'bytearray', 'range', 'decimal', 'fraction', 'timedelta', 'date', 'name'}
+    leaf = {'atom', 'mystr', 'myint', 'newargsint', 'kwnew', 'enum', 'intenum', 'complex', 'bytearray', 'range', 'decimal', 'fraction', 'timedelta', 'date', 'name'}
     order = [i for i, n in enumerate(nodes) if n[0] in leaf] + [i for i, n in enumerate(nodes) if n[0] not in leaf]
     for i in order:
         n = nodes[i]
@@ -401,6 +452,14 @@ def build(spec):
             o[i] = SlotsSetstate(o[n[1]], o[n[2]])
         elif k == 'statedict':
             o[i] = StateDict(o[n[1]], o[n[2]])
+        elif k == 'frozen':
+            o[i] = Frozen(o[n[1]], o[n[2]])
+        elif k == 'tracking':
+            o[i] = Tracking(o[n[1]], o[n[2]])
+        elif k == 'propshadow':
+            o[i] = PropShadow(o[n[1]])
+        elif k == 'kwnew':
+            o[i] = KwNew(value=n[1], label='kw')
         elif k == 'statetuple':
             o[i] = StateTuple(o[n[1]], o[n[2]])
         elif k == 'newargs':
@@ -478,7 +537,7 @@ def r_cls(i):
     return [Plain, Color, dict, Point][i % 4]
 
 
-ATOM_SUBCLASS_KINDS = {'mystr', 'myint', 'newargsint', 'intenum'}
+ATOM_SUBCLASS_KINDS = {'mystr', 'myint', 'newargsint', 'intenum', 'kwnew'}
 
 
 def unshare(spec, kinds=ATOM_SUBCLASS_KINDS):
@@ -498,8 +557,10 @@ def unshare(spec, kinds=ATOM_SUBCLASS_KINDS):
     for i in range(n0):
         n = nodes[i]
         k = n[0]
-        if k in ('plain', 'slotsdict', 'statedict', 'slots', 'slotssetstate', 'statetuple', 'newargs', 'withclassref', 'namedtuple'):
+        if k in ('plain', 'slotsdict', 'statedict', 'slots', 'slotssetstate', 'statetuple', 'newargs', 'withclassref', 'namedtuple', 'frozen', 'tracking'):
             n[1], n[2] = fresh(n[1]), fresh(n[2])
+        elif k == 'propshadow':
+            n[1] = fresh(n[1])
         elif k in ('list', 'tuple', 'mylist', 'reducelist', 'deque', 'set', 'frozenset'):
             n[1] = [fresh(j) for j in n[1]]
         elif k in ('dict', 'mydict', 'reducedict', 'odict', 'defaultdict', 'indexeddict', 'table'):
